@@ -68,7 +68,7 @@ func (fs *RepositoryFilesystem) mapToRepositoryFsByPath(path string) billy.Files
 	// Usual dot-git root will be used for the rest of files.
 	first := strings.Split(cleanPath, string(filepath.Separator))[0]
 	switch first {
-	case objectsPath, refsPath, packedRefsPath, configPath, branchesPath, hooksPath, infoPath, remotesPath, logsPath, shallowPath, worktreesPath:
+	case objectsPath, refsPath, packedRefsPath, packedRefsPath + refLockSuffix, configPath, branchesPath, hooksPath, infoPath, remotesPath, logsPath, shallowPath, worktreesPath:
 		return fs.commonDotGitFs
 	case tmpPath:
 		// Temporary files without a directory of their own are created in the
